@@ -30,7 +30,9 @@
 (*                       batch) alone                                      *)
 (*                                                                         *)
 (* MixBug # "none": deliberately wrong variants, model-level negative      *)
-(* controls that show WHICH inputs a check has to exercise:                *)
+(* controls that show WHICH inputs a check has to exercise (TLC must find  *)
+(* them violating the property, and only inside the stated input class:    *)
+(* BoundarySeeds / BoundaryLarge hold, Rejected reports the violations):    *)
 (*   "seed-iff-first-finite"  seeds are drawn only when the first circuit  *)
 (*        has finite shots, otherwise tasks sample from fresh entropy      *)
 (*        (two values, chosen nondeterministically): correct on every      *)
@@ -132,6 +134,12 @@ MixReproducible == \A k \in 1..Len(outs) : LET e == MixExpected(k) IN \A i \in 1
 \* an analytic circuit never shows the seed it was handed
 AnalyticSeedFree == \A k \in 1..Len(outs) : \A i \in 1..n : mask[i] = 0 => Obs(outs[k][i]) = Res(i, 0)
 MixProgress == phase = "end" \/ ENABLED MixNext
+\* input classes outside of which the wrong variants are indistinguishable from the correct model
+PropOK == MixOrderPreserved /\ MixReproducible
+BoundarySeeds == PropOK \/ (n > 0 /\ mask[1] = 0 /\ \E i \in 1..n : mask[i] = 1)       \* analytic first, finite shots later
+BoundaryLarge == PropOK \/ n > 10                                                       \* more than ten circuits
+\* CONSTRAINT: reports every finished behaviour that returned something else than (seed, batch) determine
+Rejected == IF phase = "end" /\ ~MixReproducible THEN PrintT(<<"V", "rejected", n, w>>) ELSE TRUE
 \* ACTION_CONSTRAINT for large batches: the caller hands over the whole batch before the pool starts on it (executor.map
 \* receives complete lists); the interleaving of Submit with the rest is explored exhaustively on small batches
 SubmitFirst == (phase = "run" /\ nsub < n) => nsub' = nsub + 1
